@@ -1817,3 +1817,81 @@ Proof.
   - repeat constructor; unfold byte_ok; lia.
   - repeat constructor; unfold byte_ok; lia.
 Qed.
+
+(* ------------------------------------------------------------------ trees reached through histories of API calls *)
+Lemma jv_Forall_arr_intro (P : jv -> Prop) l : P (JArr l) -> Forall (jv_Forall P) l -> jv_Forall P (JArr l).
+Proof. intros H0 H. cbn [jv_Forall]. split; [exact H0|]. clear H0. induction H; [exact I|split; assumption]. Qed.
+Lemma jv_Forall_obj_intro (P : jv -> Prop) l : P (JObj l) -> Forall (fun kv => jv_Forall P (snd kv)) l -> jv_Forall P (JObj l).
+Proof. intros H0 H. cbn [jv_Forall]. split; [exact H0|]. clear H0. induction H; [exact I|split; assumption]. Qed.
+Lemma Forall_nth_upd {A} (Q : A -> Prop) f l : Forall Q l -> (forall x, Q x -> Q (f x)) -> forall n, Forall Q (nth_upd n f l).
+Proof.
+  intros H Hf. induction H as [|x r Hx Hr IH]; intros n; destruct n; cbn [nth_upd]; constructor; auto.
+Qed.
+Lemma Forall_nth_del {A} (Q : A -> Prop) l : Forall Q l -> forall n, Forall Q (nth_del n l).
+Proof. intros H. induction H as [|x r Hx Hr IH]; intros n; destruct n; cbn [nth_del]; try constructor; auto; constructor. Qed.
+
+Definition tree_ok (v : jv) : Prop := jv_Forall node_ok v.
+
+Lemma jv_at_ok f : (forall x, tree_ok x -> tree_ok (f x)) -> forall path v, tree_ok v -> tree_ok (jv_at path f v).
+Proof.
+  intros Hf. induction path as [|i p IH]; intros v G; cbn [jv_at]; [apply Hf, G|].
+  destruct v; try exact G.
+  - apply jv_Forall_arr_intro; [exact I|]. apply Forall_nth_upd; [exact (jv_Forall_arr _ _ G)|exact IH].
+  - apply jv_Forall_obj_intro.
+    + pose proof (jv_Forall_here _ _ G) as Hk. cbn [node_ok] in *. apply Forall_nth_upd; [exact Hk|]. intros x Hx. exact Hx.
+    + apply Forall_nth_upd; [exact (jv_Forall_obj _ _ G)|]. intros x Hx. cbn [snd]. apply IH, Hx.
+Qed.
+
+(* the arguments of one call, as the property admits them *)
+Definition hop_arg_ok (h : hop) : Prop :=
+  match h with
+  | HSetDouble _ bits => dbl_finite bits = true
+  | HSetUint64 _ z => 0 <= z
+  | HSetString _ s => Forall byte_ok s
+  | HReplace _ _ c => tree_ok c
+  | _ => True
+  end.
+
+Lemma hop_ok h v : hop_arg_ok h -> tree_ok v -> tree_ok (hop_apply h v).
+Proof.
+  intros Ha G. destruct h; cbn [hop_apply hop_arg_ok] in *; try exact G; apply jv_at_ok; try exact G; intros x Gx.
+  - destruct x; try exact Gx. cbn. split; [exact Ha|exact I].
+  - destruct x; try exact Gx; cbn; tauto.
+  - destruct x; try exact Gx; cbn; tauto.
+  - destruct x; try exact Gx; cbn; tauto.
+  - destruct x; try exact Gx. cbn. split; [exact Ha|exact I].
+  - destruct x; try exact Gx; cbn [replace_child].
+    + apply jv_Forall_arr_intro; [exact I|]. apply Forall_nth_upd; [exact (jv_Forall_arr _ _ Gx)|]. intros _ _. exact Ha.
+    + apply jv_Forall_obj_intro.
+      * pose proof (jv_Forall_here _ _ Gx) as Hk. cbn [node_ok] in *. apply Forall_nth_upd; [exact Hk|]. intros y Hy. exact Hy.
+      * apply Forall_nth_upd; [exact (jv_Forall_obj _ _ Gx)|]. intros y _. exact Ha.
+  - destruct x; try exact Gx; cbn [delete_child].
+    + apply jv_Forall_arr_intro; [exact I|]. apply Forall_nth_del. exact (jv_Forall_arr _ _ Gx).
+    + apply jv_Forall_obj_intro.
+      * pose proof (jv_Forall_here _ _ Gx) as Hk. cbn [node_ok] in *. apply Forall_nth_del. exact Hk.
+      * apply Forall_nth_del. exact (jv_Forall_obj _ _ Gx).
+Qed.
+Lemma hist_ok hs : Forall hop_arg_ok hs -> forall v, tree_ok v -> tree_ok (hist_apply hs v).
+Proof.
+  unfold hist_apply. induction 1 as [|h r Hh _ IH]; intros v G; cbn [fold_left]; [exact G|]. apply IH, hop_ok; assumption.
+Qed.
+
+(* C02 over histories: whatever sequence of deep copies, setters, child replacements and deletions
+   produced the tree, its text is RFC 8259 and denotes the tree, and the flags change only whitespace *)
+Theorem history_valid fmt17 (Hfmt : fmt17_ok fmt17) fl hs v :
+  color fl = false -> tree_ok v -> Forall hop_arg_ok hs ->
+  exists s, stx_ok s = true /\ render s = serialize fmt17 fl 0 (hist_apply hs v) /\ denotes fmt17 (value s) (hist_apply hs v).
+Proof. intros Hc G Hs. apply ser_is_valid; [exact Hfmt|exact Hc|]. apply hist_ok; assumption. Qed.
+Theorem history_flags fmt17 (Hfmt : fmt17_ok fmt17) fl hs v :
+  tree_ok v -> Forall hop_arg_ok hs ->
+  significant (serialize fmt17 fl 0 (hist_apply hs v)) = significant (serialize fmt17 flags_plain 0 (hist_apply hs v)).
+Proof. intros G Hs. apply flags_only_whitespace; [exact Hfmt|]. apply hist_ok; assumption. Qed.
+
+(* json_object_set_double: the node then prints the %.17g text of the NEW value, whatever text it
+   retained before (from the parser, json_object_new_double_s, or through a deep copy of either) *)
+Theorem set_double_prints_new_value fmt17 fl level b t bits :
+  serialize fmt17 fl level (set_double_node bits (JDouble b t)) = double_text fmt17 fl bits.
+Proof. reflexivity. Qed.
+(* and a deep copy prints what its source prints *)
+Theorem copy_prints_the_same fmt17 fl level v : serialize fmt17 fl level (hop_apply HCopy v) = serialize fmt17 fl level v.
+Proof. reflexivity. Qed.
